@@ -74,7 +74,7 @@ class C01(ProgramProperty):
         by = {}
         fails = []
         for st, v in zip(steps, impl):
-            if st["op"] == "q" and st["m"] in ("parse_uri", "compress", "is_uri"):
+            if st["op"] == "q" and st["m"] in ("parse_uri", "compress", "is_uri") and st["c"] < 50:   # (not the decoy converter)
                 key = (st["m"], tuple(map(tuple, st["a"])))
                 by.setdefault(key, {})[st["c"]] = v
         for key, d in by.items():
